@@ -56,9 +56,11 @@ def _gen_backward_step(rng, spec, g_shape, cands, rg, dtype, retain):
     if not outs:
         return None
     inputs = rng.sample(rg, rng.randint(1, len(rg))) if rng.random() < 0.75 else None
+    from ..world import gen_forms
+
     return {
         "op": "call",
-        "call": {"api": "backward", "tensors": outs, "inputs": inputs, "agg": gen_det_agg(rng, rows, dtype, families=FAMS), "chunk": gen_chunk(rng, rows), "retain": retain},
+        "call": {"api": "backward", "tensors": outs, "inputs": inputs, "agg": gen_det_agg(rng, rows, dtype, families=FAMS), "chunk": gen_chunk(rng, rows), "retain": retain, "forms": gen_forms(rng)},
     }
 
 
